@@ -4,6 +4,7 @@ import (
 	"context"
 	"errors"
 	"fmt"
+	"math"
 	"strconv"
 	"strings"
 	"testing"
@@ -234,13 +235,16 @@ type joeShutdown struct {
 }
 
 type joeCanceller struct {
-	sub     *joeSub
-	startAt int
-	bySends int
-	done    bool
+	afterArrival bool // crowd profile: waits until every subscriber was accepted
+	sub          *joeSub
+	startAt      int
+	bySends      int
+	done         bool
 }
 
 type joeWorld struct {
+	wide        bool // large topic sets (wideTopics)
+	crowd       bool // dozens of subscribers at once
 	usedEmptyID bool
 	rc          *RunCtx
 	o           *Outcome
@@ -324,9 +328,19 @@ func (w *joeWorld) newMessage(topics []string) *pubMsg {
 
 // ---------------------------------------------------------------- scenario generation
 
+// topicsFor draws a topic set for a message or a subscription (large sets in "wide" runs).
+func (w *joeWorld) topicsFor(label string, forMessage bool) []string {
+	if w.wide {
+		return genTopicsWide(w.ch, label, forMessage)
+	}
+	return genTopics(w.ch, label)
+}
+
 func (w *joeWorld) generate() {
 	ch := w.ch
 	prop := w.rc.Prop
+	w.wide = ch.Chance(1, 20, "large topic sets")
+	w.crowd = (prop == "C03" || prop == "C06" || prop == "C07") && ch.Chance(1, 40, "crowd of subscribers")
 	w.faults = prop == "C06" || prop == "C17" || (prop == "C07" && ch.Chance(1, 2, "fault config")) || (prop == "C03" && ch.Chance(1, 4, "failing subscribers next to the healthy ones"))
 
 	switch prop {
@@ -347,6 +361,10 @@ func (w *joeWorld) generate() {
 		w.rep.inner = fr
 	case 2:
 		ttl := 1000 * time.Hour // far above the run's duration
+		if ch.Chance(1, 6, "ttl for the lifetime of the program") {
+			ttl = []time.Duration{250 * 365 * 24 * time.Hour, math.MaxInt64}[ch.Intn(2, "huge ttl")]
+			w.o.probe("TTL beyond 100 years")
+		}
 		if ch.Chance(1, 3, "valid replayer with a real TTL") {
 			// events really expire while the run goes on (ticks are enabled below)
 			w.ttl = []time.Duration{5 * time.Second, 2 * time.Minute}[ch.Intn(2, "ttl")]
@@ -379,7 +397,7 @@ func (w *joeWorld) generate() {
 		}
 		n := 0
 		for n < 4 && budget > 0 && ch.Chance(3, 4, "more messages") {
-			pm := w.newMessage(genTopics(ch, "msg"))
+			pm := w.newMessage(w.topicsFor("msg", true))
 			pm.pub = p
 			jp.msgs = append(jp.msgs, pm)
 			n++
@@ -388,7 +406,7 @@ func (w *joeWorld) generate() {
 				// the same message value may be published any number of times (a heartbeat, the README's hello world)
 				again := &pubMsg{tag: fmt.Sprintf("%s~%d", pm.tag, k), topics: pm.topics, msg: pm.msg, pub: p}
 				if ch.Chance(1, 3, "other topics this time") {
-					again.topics = genTopics(ch, "msg")
+					again.topics = w.topicsFor("msg", true)
 				}
 				w.allMsgs = append(w.allMsgs, again)
 				jp.msgs = append(jp.msgs, again)
@@ -402,10 +420,33 @@ func (w *joeWorld) generate() {
 
 	// subscribers
 	nSubs := ch.Weighted([]int{3, 4, 3, 2}, "subscribers") + 1
+	if w.crowd {
+		// dozens of subscribers registered at once, most of which leave again while Joe is live
+		nSubs = ch.Range(64, 70, "crowd size")
+		w.o.probe("crowd of 64 or more subscribers")
+	}
 	for i := 0; i < nSubs; i++ {
+		if w.crowd && i >= 3 {
+			s := &joeSub{id: i, idLpos: -1, idClass: idUnset}
+			s.sub = &simSub{ID: i}
+			s.topics = w.topicsFor("sub", false)
+			s.base, s.cancel = context.WithCancel(context.Background())
+			s.ctx = &loggedCtx{Context: s.base, onDone: func() {
+				if s.firstDone == 0 {
+					s.firstDone = w.tick()
+				}
+			}}
+			s.sub.OnCall = w.onSubCall(s)
+			w.subs = append(w.subs, s)
+			if ch.Chance(7, 8, "canceller") {
+				// most of the crowd leaves again, after everybody has arrived
+				w.cancellers = append(w.cancellers, &joeCanceller{sub: s, startAt: ch.Range(0, max(total, 1), "cancel after publishes"), afterArrival: true})
+			}
+			continue
+		}
 		s := &joeSub{id: i, idLpos: -1}
 		s.sub = &simSub{ID: i}
-		s.topics = genTopics(ch, "sub")
+		s.topics = w.topicsFor("sub", false)
 		if ch.Chance(1, 16, "subscription without topics") {
 			// handed to Joe directly (the Server never does this): no topic, so nothing matches it
 			s.topics = [][]string{nil, {}}[ch.Intn(2, "nil or empty topics")]
@@ -474,15 +515,18 @@ func (w *joeWorld) generate() {
 		if prop == "C06" {
 			w.rep.failReplayAt = ch.Range(1, 3, "failing replay")
 		} else {
-			switch ch.Weighted([]int{3, 2, 2, 2, 2}, "replayer fault") {
-			case 1:
-				w.rep.failPutAt = ch.Range(1, 4, "failing put")
-			case 2:
-				w.rep.panicPutAt = ch.Range(1, 4, "panicking put")
-			case 3:
-				w.rep.failReplayAt = ch.Range(1, 3, "failing replay")
-			case 4:
-				w.rep.panicReplayAt = ch.Range(1, 3, "panicking replay")
+			// one fault, sometimes a second of another kind (a path taken only after an earlier failure was handled)
+			for n := 0; n < 2 && (n == 0 || ch.Chance(1, 3, "second replayer fault")); n++ {
+				switch ch.Weighted([]int{3, 2, 2, 2, 2}, "replayer fault") {
+				case 1:
+					w.rep.failPutAt = ch.Range(1, 4, "failing put")
+				case 2:
+					w.rep.panicPutAt = ch.Range(1, 4, "panicking put")
+				case 3:
+					w.rep.failReplayAt = ch.Range(1, 3, "failing replay")
+				case 4:
+					w.rep.panicReplayAt = ch.Range(1, 3, "panicking replay")
+				}
 			}
 		}
 	}
@@ -586,7 +630,7 @@ func (w *joeWorld) spawnAll() {
 	if w.prehistory > 0 {
 		var pre []*pubMsg
 		for i := 0; i < w.prehistory; i++ {
-			pm := w.newMessage(genTopics(w.ch, "pre"))
+			pm := w.newMessage(w.topicsFor("pre", true))
 			pm.pub = -1
 			pre = append(pre, pm)
 		}
@@ -631,6 +675,16 @@ func (w *joeWorld) spawnAll() {
 	for _, c := range w.cancellers {
 		c := c
 		sim.Spawn(fmt.Sprintf("cancel%d", c.sub.id), func() {
+			if c.afterArrival {
+				sim.WaitWeak("cancel waits for the crowd to arrive", func() bool {
+					for _, s := range w.subs {
+						if s.accepted == 0 {
+							return false
+						}
+					}
+					return true
+				})
+			}
 			if c.bySends > 0 {
 				sim.WaitWeak("cancel waits for sends", func() bool { return c.sub.sub.sends >= c.bySends })
 			} else if c.startAt > 0 {
@@ -813,6 +867,9 @@ func runJoeWorld(rc *RunCtx) *Outcome {
 			w.generate()
 			if w.ttl > 0 {
 				cfg.TickOneIn = 3
+			}
+			if w.crowd {
+				cfg.MaxSteps = 40000
 			}
 			w.sim = verifhook.New(rc.Ch, cfg)
 			w.sim.SetRanker(func(key, value any) (int64, bool) {
@@ -1123,6 +1180,11 @@ func (w *joeWorld) checkSubscribeResults() {
 			}
 		case s.retErr != nil:
 			o.violate("C06", "subscribe-result", "sub%d: Subscribe returned %v without any failure of its own", s.id, s.retErr)
+			if w.rep.panicked && w.rep.panicSeq != 0 && s.invoked > w.rep.panicSeq {
+				// after a replayer panic calls proceed as if no replayer were configured: a subscription
+				// made afterwards cannot fail with anything that comes from the replayer
+				o.violate("C17", "subscribe-fails-after-replayer-panic", "sub%d subscribed after the replayer had panicked and was turned away with %v", s.id, s.retErr)
+			}
 		default:
 			if s.cancelReq == 0 && w.shutdownSeq == 0 {
 				o.violate("C06", "subscribe-result", "sub%d: Subscribe returned nil without cancellation or shutdown", s.id)
